@@ -129,3 +129,15 @@ Proof.
     + injection H as <-. unfold writes_in_flight, init; simpl; lia.
     + apply run_snoc in H. destruct H as (s1 & H1 & H2). eapply writes_inv; eauto.
 Qed.
+
+(* a caller cancelled while it waits in the guard only leaves the waiters: the read in flight keeps the flag *)
+Definition read_waiters (s : pstate) : nat := (if wait_pass s then 1 else 0) + wait_load s.
+
+Theorem cancel_keeps_holder cap s c s' :
+  step cap s (ReadCancel c) = Some s' ->
+  reading s' = reading s /\ reads_in_flight s' = reads_in_flight s /\ read_waiters s = S (read_waiters s')
+  /\ write_q s' = write_q s /\ wl s' = wl s.
+Proof.
+  intros E. unfold reads_in_flight, read_waiters. destruct c; break_step E; simpl; repeat split; auto;
+    rewrite ?Heqb, ?Heqn; simpl; lia.
+Qed.
